@@ -329,8 +329,9 @@ func (s *indexKVStore) getOrCreateValue(bucketID uint32, key []byte,
 		if err != nil {
 			return 0, false, false, err
 		}
-		if bucket != nil {
-			s.bucketCache.Add(bucketID, bucket)
+		if bucket != nil && !s.cacheBucket(bucketID, bucket, snapshot) {
+			// bucket of old snapshot, just for this lookup
+			defer bucket.Release()
 		}
 	}
 	if bucket != nil {
@@ -350,6 +351,20 @@ func (s *indexKVStore) getOrCreateValue(bucketID uint32, key []byte,
 		return 0, false, false, err
 	}
 	return id, true, isNew, nil
+}
+
+// cacheBucket caches the bucket which is read from the snapshot, if the snapshot is still current.
+// Flush switches the snapshot and purges the cache under the lock, a bucket of the old snapshot
+// must not be cached after that, if not, it hides all keys flushed since(they get new ids).
+func (s *indexKVStore) cacheBucket(bucketID uint32, bucket *model.TrieBucket, snapshot version.Snapshot) bool {
+	s.lock.RLock()
+	defer s.lock.RUnlock()
+
+	if s.snapshot != snapshot {
+		return false
+	}
+	s.bucketCache.Add(bucketID, bucket)
+	return true
 }
 
 // createValue creates new value if it still doesn't exist.
